@@ -5,6 +5,7 @@ import QlibcModel.Tree.Table
 import QlibcModel.Tree.PutBal
 import QlibcModel.Tree.PutOrd
 import QlibcModel.Tree.Find
+import QlibcModel.Tree.Remove
 
 namespace Qlibc.Tree
 open Qlibc T
@@ -76,6 +77,18 @@ theorem insL_length {α : Type} (key : α → K) (new : α) (onDup : α → α) 
     · simp only [insL, memL, lookupL, hcmp, List.length_cons] at *
       rw [ih]; split <;> simp_all
 
+theorem delL_length {α : Type} (key : α → K) (k : K) : ∀ l : List α,
+    (delL cmp key k l).length + (memL cmp key k l).toNat = l.length := by
+  intro l
+  induction l with
+  | nil => simp [delL, memL, lookupL]
+  | cons a rest ih =>
+    rcases hcmp : cmp k (key a) with _ | _ | _
+    · simp [delL, memL, lookupL, hcmp]
+    · simp [delL, memL, lookupL, hcmp]
+    · simp only [delL, memL, lookupL, hcmp, List.length_cons] at *
+      omega
+
 theorem Tbl.init_inv : (Tbl.init : Tbl K V).Inv cmp :=
   ⟨by simp [Tbl.init, resetIterator, Ordered, Sorted], ⟨0, by simpa [Tbl.init, resetIterator] using Bal.nil⟩,
    by simp [Tbl.init, resetIterator]⟩
@@ -115,6 +128,49 @@ theorem Tbl.putobj_spec (hc : CmpOk cmp) (isEmpty : V → Bool) (s : Tbl K V) (k
     rw [insL_map cmp new onDup (fun p => if isEmpty v then p else (p.1, v))]
     · rfl
     · intro e; simp only [onDup, kv]; split <;> rfl
+
+theorem delL_map (k : K) : ∀ l : List (Entry K V),
+    (delL cmp keyOf k l).map kv = delL cmp Prod.fst k (l.map kv) := by
+  intro l
+  induction l with
+  | nil => rfl
+  | cons a rest ih =>
+    simp only [delL, List.map_cons, keyOf] at *
+    have : (kv a).1 = a.key := rfl
+    simp only [this]
+    cases cmp k a.key <;> simp [ih]
+
+theorem memL_map (k : K) (l : List (Entry K V)) :
+    memL cmp keyOf k l = memL cmp Prod.fst k (l.map kv) := by
+  simp only [memL, ← lookupL_map]
+  cases lookupL cmp keyOf k l <;> rfl
+
+/-- `qtreetbl_removeobj` never faults, keeps the invariant, removes exactly the equal key and
+    reports whether it was present -/
+theorem Tbl.removeobj_spec (hc : CmpOk cmp) (s : Tbl K V) (k : K) (hi : s.Inv cmp) :
+    ∃ s', s.removeobj cmp k = .ok (s', (removeSpec cmp k s.abs).2) ∧ s'.Inv cmp ∧
+      s'.abs = (removeSpec cmp k s.abs).1 ∧ s'.tid = s.tid := by
+  obtain ⟨t', enoent, h1, h2⟩ := remove_llrb (key := keyOf) hc copyKV k s.root hi.llrb hi.ordered
+  obtain ⟨i1, i2⟩ := remove_inorder (key := keyOf) hc copyKV kv (fun _ _ => rfl) k _ s.root _ h1 hi.ordered hi.llrb
+  have ho := remove_ordered (key := keyOf) hc copyKV (fun _ _ => rfl) k _ s.root _ h1 hi.ordered hi.llrb
+  simp only at i1 i2 ho
+  let s' : Tbl K V := { s with root := t'.blacken, num := if enoent then s.num else s.num - 1 }
+  have hrun : s.removeobj cmp k = .ok (s', !enoent) := by
+    simp only [Tbl.removeobj]
+    rw [h1]
+    rfl
+  have hroot : s'.root = t'.blacken := rfl
+  have hnum : s'.num = if enoent then s.num else s.num - 1 := rfl
+  have hlen := congrArg List.length i1
+  simp only [List.length_map] at hlen
+  refine ⟨s', ?_, ⟨?_, ?_, ?_⟩, ?_, rfl⟩
+  · rw [hrun]; simp [removeSpec, i2, Tbl.abs, memL_map]
+  · simpa [Ordered, hroot] using ho
+  · rw [hroot]; exact h2
+  · rw [hroot, hnum, size_blacken, ← length_inorder, hlen, hi.count, ← length_inorder, i2]
+    have := delL_length cmp keyOf k (inorder s.root)
+    cases h : memL cmp keyOf k (inorder s.root) <;> simp [h] at this ⊢ <;> omega
+  · simp only [Tbl.abs, hroot, inorder_blacken, i1, removeSpec, delL_map]
 
 /-- `qtreetbl_getobj` returns what the ideal map holds -/
 theorem Tbl.getobj_spec (hc : CmpOk cmp) (s : Tbl K V) (k : K) (hi : s.Inv cmp) :
